@@ -60,6 +60,11 @@ to its division-free characterisation (`roundShift_isRounded`).
   resolution), `C09.ties_up_float_to_scaled_truncates_after_bias` (`x + half ≥ 0` or a multiple) and
   `C09.float_to_scaled_bias_rounds` (the biased sum is exact); the classes themselves are refuted in
   `neg_inf_float_to_scaled_refuted`, `ties_up_float_to_scaled_refuted`, `float_to_scaled_bias_refuted`.
+* all of these quantify over every destination exponent `eD` and width; the finest exponents of each width
+  (`eD = −63, −62` for a 64-bit representation, `−64` unsigned, `−31, −30, −32` for 32 bits: `2^−eD` and the half unit
+  `2^(eD−1)` meet the width of `long long` / `int`) are instances of `power_value_float_exact` (`2^63`, `2^−63`,
+  `2^−64` are normal in every format) and are exercised by the harness for every tag × format (lines `f2s`, inputs
+  `n·2^(eD−7)` for all small `n` of both signs); concrete instances are checked by `decide` below.
 
 ## scaled → scaled with the rounding tag in the representation (last section)
 
@@ -503,6 +508,23 @@ example : ¬ TruncIsFloor (sval true (2^24-1)) (-26 - -4)
 example : ScaleFits binary32 20 (2^24-1) (-149) ∧ PowF binary32 20 ∧ ¬ ScaleOk binary32 20 (2^24-1) (-149)
     ∧ floatToScaled .nat binary32 i32 20 (.fin true (2^24-1) (-149)) = .ok 0
     ∧ roundDyadic .truncate (sval true (2^24-1)) (-149 - 20) = 0 := by decide +kernel
+-- the finest exponents of a 64-bit representation (2^63 meets the width of long long): the scaling power and the half
+-- unit are +2^63 / +2^-63 / +2^-64 in every format; -2^-61 is -4 units of 2^-63 (+2^-61 under tie_to_pos_inf: 4 units); ±(1.5 units + 2^-70)
+example : ScaledFloat.powerValueF binary32 2 63 = .fin false (2^23) 40 ∧ ScaledFloat.powerValueF binary64 2 63 = .fin false (2^52) 11
+    ∧ ScaledFloat.powerValueF x87ext 2 63 = .fin false (2^63) 0 ∧ ScaledFloat.powerValueF x87ext 2 (-63) = .fin false (2^63) (-126)
+    ∧ ScaledFloat.powerValueF binary32 2 (-64) = .fin false (2^23) (-87) ∧ ScaledFloat.powerValueF binary64 2 64 = .fin false (2^52) 12
+    ∧ ScaledFloat.powerValueF binary32 2 31 = .fin false (2^23) 8 ∧ ScaledFloat.powerValueF binary32 2 (-32) = .fin false (2^23) (-55) := by decide +kernel
+example : PowF binary32 (-63) ∧ PowF binary64 (-62) ∧ PowF x87ext (-64) ∧ ScaleFits binary32 (-63) (2^23) (-84)
+    ∧ floatToScaled .nat binary32 i64 (-63) (.fin true (2^23) (-84)) = .ok (-4)
+    ∧ floatToScaled .ninf binary64 i64 (-63) (.fin true (2^52) (-113)) = .ok (-4)
+    ∧ floatToScaled .tpi x87ext i64 (-63) (.fin false (2^63) (-124)) = .ok 4
+    ∧ floatToScaled .nrst binary32 i64 (-63) (.fin true (2^23) (-84)) = .ok (-4)
+    ∧ floatToScaled .nrst binary64 i64 (-62) (.fin false 385 (-70)) = .ok 2
+    ∧ floatToScaled .nrst binary64 i64 (-62) (.fin true 385 (-70)) = .ok (-2)
+    ∧ floatToScaled .tpi binary64 i64 (-62) (.fin false 383 (-70)) = .ok 1
+    ∧ floatToScaled .tpi binary32 u64 (-64) (.fin false 97 (-70)) = .ok 2
+    ∧ floatToScaled .nrst binary32 i32 (-31) (.fin false (2^23) (-24)) = .ok 1073741824
+    ∧ floatToScaled .ninf binary64 u32 (-32) (.fin false (2^53-1) (-53)) = .ok 4294967295 := by decide +kernel
 
 /-! ## scaled → scaled through `rounding_integer` representations (`CnlModel.RoundWrap`)
 
